@@ -63,7 +63,8 @@ func mixedSpec(ctx *Ctx, r *rng.R) *wl.Spec {
 
 func genC14(ctx *Ctx, i int) *Input {
 	r := rng.New(ctx.Seed, "C14", i)
-	in := &Input{Index: i, Variants: wl.AllVariants}
+	// every option set of `generate`: the five output variants plus the web-debugger build (-d, -o -d)
+	in := &Input{Index: i, Variants: append(append([]wl.Variant(nil), wl.AllVariants...), wl.Variant{Lang: "go", Http: true}, wl.Variant{Lang: "go", Object: true, Http: true})}
 	names, texts := exampleTexts(ctx)
 	if i < len(texts) {
 		in.Text, in.Base = texts[i], names[i]
@@ -268,6 +269,9 @@ func realCLI(ctx *Ctx, text string, v wl.Variant, n int) ([][]byte, string) {
 		}
 		if v.Object {
 			args = append(args, "-o")
+		}
+		if v.Http {
+			args = append(args, "-d")
 		}
 		lang := "go"
 		if v.Lang == "ts" {
